@@ -29,6 +29,7 @@ CONFIGS = [
     dict(name="cA", grid_n=3, n_mazes=3, ctor="gen_dfs", ctor_kwargs={}, seed=5, endpoint_kwargs={}, filters=[], thr=None),
     dict(name="cB", grid_n=4, n_mazes=6, ctor="gen_wilson", ctor_kwargs={}, seed=7, endpoint_kwargs={}, filters=[dict(name="path_length", args=[], kwargs=dict(min_length=4))], thr=None),
     dict(name="cC", grid_n=4, n_mazes=5, ctor="gen_dfs_percolation", ctor_kwargs=dict(p=0.2), seed=9, endpoint_kwargs=dict(endpoints_not_equal=True), filters=[], thr=2),
+    dict(name="cE", grid_n=3, n_mazes=130, ctor="gen_dfs", ctor_kwargs={}, seed=13, endpoint_kwargs={}, filters=[], thr=None),
     dict(name="cD", grid_n=3, n_mazes=4, ctor="gen_dfs", ctor_kwargs=dict(do_forks=False), seed=11, endpoint_kwargs={}, filters=[dict(name="collect_generation_meta", args=[], kwargs={})], thr=None),
 ]
 
@@ -304,6 +305,9 @@ def main(chk: lib.Check) -> int:
             fl += [("fliptail", k, m) for k in range(1, 449) for m in (0xFF, 0x01)] + [("flip", k, m) for k in range(0, 48) for m in (0xFF, 0x01)]
         # positions are taken modulo the real file size inside the job; duplicates are dropped there by the modulo only in thorough
         allf = base + tr + fl
+        if spec["n_mazes"] > 100 and not thorough:
+            # the large configuration (default threshold -> minimal format, metadata collected on save) gets a reduced sweep in quick
+            allf = base + tr[::4] + fl[::6]
         nchunks = 16 if thorough else 8
         for i in range(nchunks):
             jobs.append((spec, allf[i::nchunks], fv))
